@@ -221,7 +221,7 @@ theorem frame_ok (p : Packet) (h : p.Valid) : frame p = .ok (frameBytes p) := by
   obtain ⟨h1, h2, h3⟩ := h
   unfold frame maxPacketSize frameBytes
   have : ¬ (p.typ < 1 ∨ p.typ > 5) := by omega
-  have h4 : ¬ (p.body.length > 2 ^ 24) := by omega
+  have h4 : ¬ (p.body.length ≥ 2 ^ 24) := by omega
   rw [if_neg this, if_neg h4]
 
 theorem parseHeader_frame (t n : Nat) (h1 : 1 ≤ t) (h2 : t ≤ 5) (hn : n < 2 ^ 24) :
